@@ -25,7 +25,9 @@ class STLExplainer(LTLExplainer, StlAstVisitor):
     def explain(self, spec):
         self.spec = spec
         self.explanations = Explanations()
-        for spec in self.spec.specs:
+        # only the assertion whose value evaluate() returns is explained (an earlier assertion that is
+        # violated is a sub-specification: it is explained through the references to it, if at all)
+        for spec in self.spec.specs[-1:]:
             top_signal = self.spec.results[spec]
             if top_signal[0] < 0:
                 self.visit(spec, [[[0,0]], False])
